@@ -112,10 +112,24 @@ def run_grid(case, counters, viol, nontrivial):
             else:
                 dt = dts
             for mask in itertools.product([0, 1], repeat=4):
-                kw = dict(x=xa.asarray(x0), xp=xa, dtype=dt)
-                for flag, name, arr in zip(mask[:3], ("log_likelihood", "log_prior", "log_q"), f0):
+                # half of the cells are built from views into larger arrays (a parameter subset of a chain, a thinned chain,
+                # columns of a table of log-densities): same values, another memory layout
+                views = bool(mask[0] ^ mask[3])
+                if views:
+                    big = np.zeros((2 * n, 2 * d + 1))
+                    big[::2, 1::2] = x0
+                    tab = np.zeros((n, 5))
+                    tab[:, [0, 2, 4]] = np.column_stack(f0)
+                    big_a, tab_a = xa.asarray(big), xa.asarray(tab)
+                    kw = dict(x=big_a[::2, 1::2], xp=xa, dtype=dt)
+                    fsrc = [tab_a[:, 0], tab_a[:, 2], tab_a[:, 4]]
+                    counters["cells_built_from_strided_views"] += 1
+                else:
+                    kw = dict(x=xa.asarray(x0), xp=xa, dtype=dt)
+                    fsrc = [xa.asarray(arr) for arr in f0]
+                for flag, name, arr in zip(mask[:3], ("log_likelihood", "log_prior", "log_q"), fsrc):
                     if flag:
-                        kw[name] = xa.asarray(arr)
+                        kw[name] = arr
                 if mask[3]:
                     kw["parameters"] = ["alpha", "beta_"]
                 s = C(**kw)
@@ -152,6 +166,9 @@ def run_grid(case, counters, viol, nontrivial):
                         elif src is not None:
                             if ns_name_of_array(dst) != b:
                                 bad.append(f"{name} is a {type(dst).__name__}")
+                            truth = {"x": x0, "log_likelihood": f0[0], "log_prior": f0[1], "log_q": f0[2]}[name]
+                            if not np.allclose(_vals(src), truth, rtol=1e-6, atol=1e-6):
+                                bad.append(f"{name} values changed on construction")
                             if w_expect >= w0:
                                 if not np.array_equal(_vals(src), _vals(dst)):
                                     bad.append(f"{name} values changed")
